@@ -30,11 +30,11 @@ ALLOWED_AXIOMS = [
 META = {
     "level_text": "Machine-checked proofs (Coq, over the real numbers) about Gallina functions that are REGENERATED from platypus/problems.py by a fail-closed "
                   "Python-AST translator on every run (all 40 real-valued problem classes except UF11/UF12 and every WFG helper are generated). Proved, for every supported size: "
-                  "ZDT1-4,6 (n >= 2), DTLZ1-4 (every M >= 1, n >= M-1), DTLZ7, UF1-7 (n >= 3), CF1 and CF3 incl. their constraint value: generated = published formula written independently "
+                  "ZDT1-4,6 (n >= 2), DTLZ1-4 (every M >= 1, n >= M-1), DTLZ7, UF1-10 (n >= 3 resp. 5), CF1-10 incl. their constraint values: generated = published formula written independently "
                   "from the papers, exactly nobjs objectives (and nconstrs constraints for CF1/CF3); front bounds: ZDT g >= 1 and f2 >= front(f1); DTLZ1 sum f = (1+g)/2 >= 1/2; "
-                  "DTLZ2-4 sum f^2 = (1+g)^2 >= 1 (telescoping-product induction, all M); UF1-4,7 f2 >= front(f1) (fold invariants); WFG4, WFG5, WFG7, WFG8: the FULL clause "
-                  "sum (f_m/2m)^2 >= 1 for every in-bounds z and every nobjs on the translated evaluate pipelines, via range lemmas of s_linear, s_multi, s_decept, b_param, r_sum (each maps [0,1] into [0,1], "
-                  "_correct_to_01 modelled literally) and the concave-shape identity; exception-freedom (*_defined) for ZDT1-4,6, DTLZ1-4,7, UF1-4,7 and the scalar WFG transformations; "
+                  "DTLZ2-4 sum f^2 = (1+g)^2 >= 1 (telescoping-product induction, all M); UF1-4,7 f2 >= front(f1) (fold invariants); WFG4-9: the FULL clause "
+                  "sum (f_m/2m)^2 >= 1 for every in-bounds z and every nobjs on the translated evaluate pipelines, via range lemmas of s_linear, s_multi, s_decept, b_param, r_sum, r_nonsep (each maps [0,1] into [0,1], "
+                  "_correct_to_01 modelled literally) and the concave-shape identity; exception-freedom (*_defined) for ZDT1-4,6, DTLZ1-4,7, UF1-10 and the scalar WFG transformations; WFG4/WFG5 whole-problem equality with the published composition; "
                   "DTLZ sampler construction meets the front equation with equality. All 43 classes and the DTLZ/WFG samplers are covered on the real code by a differential oracle "
                   "against independent reference implementations (ZDT1-6, DTLZ1-4,7, UF1-10, UF13, CF1-10, WFG1-9; relative tolerance 1e-9), output count/finiteness checks at corners, "
                   "boundary and random points, front inequalities, and sampler checks (in-bounds, front equation to 1e-9, mutual non-dominance: a batch fails when one sample is better "
@@ -44,11 +44,12 @@ META = {
                   "(the standard library's construction of R) and Classical_Prop.classic (standard-library facts about exp/ln/Rpower/sqrt). "
                   "Trusted: the translator's reading of Python (float->R with literals read as written decimals, int->Z, list->list R, the helpers of coq/Base/RList.v; self.k/self.m/nconstrs resolved from the constructors; "
                   "DTLZ4's constructor parameter alpha is a parameter of the generated function and math.pow(x, alpha) is read as the real power exp(alpha ln x), 0^alpha = 0, so the DTLZ4 theorems hold for every real alpha, exception-freedom for alpha >= 0), the reference formulas of coq/Model/ProblemsRef.v being the published ones. "
-                  "PARTIAL: WFG6 and WFG9 lower bounds (c18_wfg6_lower_partial, c18_wfg9_lower_partial) take the one missing lemma as an explicit premise, r_nonsep_full_range: "
-                  "r_nonsep(y, |y|) maps [0,1]^n into [0,1], i.e. sum y_j + sum_{i<>j}|y_i-y_j| <= ceil(n/2)(1+2n-2ceil(n/2)); everything else of those pipelines (incl. r_nonsep with A = 1) is proved. "
-                  "NOT proved (differential oracle only): gen_eq_ref/out_length for UF8-10, CF2, CF4-10 and the WFG1-9 pipelines as a whole (only the WFG4-9 shape stage has gen_eq_ref), "
-                  "ZDT3's front curve (the property asks g >= 1 for ZDT, which is proved), ZDT5 (binary, outside the translator), UF11-13, WFG1-3 fronts, *_defined for UF5-10, CF and the list-level "
-                  "WFG pipelines (index ranges of _subvector/_r_sum, non-empty groups). UF11/UF12 have no independent reference (count/finiteness only). "
+                  "Phase 3: r_nonsep(y,|y|) in [0,1] is proved (cyclic reindexing, |a-b| <= a+b-2ab, fractional-part bound, integer maximisation), so the WFG6 and WFG9 clauses are full theorems "
+                  "(hypotheses M >= 2 and M-1 <= |z|); all of UF1-10 and CF1-10 have gen_eq_ref (CF: objectives AND constraint values; CF8-10 all three objectives) and out_length; "
+                  "WFG4 and WFG5 are additionally proved equal to the published composition as whole problems. "
+                  "NOT proved (differential oracle only): whole-pipeline gen_eq_ref for WFG6-9 (their lower bound is proved), the WFG1-3 classes and shapes (convex/mixed/linear/disc), "
+                  "UF11-13, ZDT3's front curve (the property asks g >= 1 for ZDT, which is proved), ZDT5 (binary, outside the translator), *_defined for CF1-10 and the list-level "
+                  "WFG pipelines (index ranges of _subvector/_r_sum, non-empty groups), WFG sampler statements over the reals. UF11/UF12 have no independent reference (count/finiteness only). "
                   "Sampler non-dominance: a pair is reported only when one sample is better by > 1e-9 in every objective; float-vector dominance with a tie within 1e-9 in some objective "
                   "(DTLZ4.random: cos of an angle < 1.5e-8 rounds to exactly 1.0) is counted in the evidence, not reported. Recorded known findings: WFG1.random/UF13.random off-front "
                   "(rounding of 0.35*2i/(2i) amplified by the 0.02 power), DTLZ7.random/WFG2.random batches not mutually non-dominated (disconnected fronts).",
@@ -60,7 +61,7 @@ REQUIRED = ["DTLZ1", "DTLZ2", "DTLZ3", "DTLZ4", "DTLZ7", "ZDT1", "ZDT2", "ZDT3",
             "_correct_to_01", "_create_A", "_calculate_x", "_concave", "_calculate_f", "_WFG_calculate_f", "_WFG4_shape",
             "_normalize_z", "_s_linear", "_s_multi", "_s_decept", "_b_param", "_subvector", "_r_sum", "_r_nonsep",
             "_WFG1_t1", "_WFG2_t3", "_WFG4_t1", "_WFG5_t1", "_WFG6_t2", "_WFG7_t1", "_WFG8_t1", "_WFG9_t1", "_WFG9_t2",
-            "WFG4", "WFG5", "WFG6", "WFG7", "WFG8", "WFG9", "UF5", "UF6", "CF1", "CF3"]
+            "WFG4", "WFG5", "WFG6", "WFG7", "WFG8", "WFG9", "UF5", "UF6", "CF1", "CF3", "UF8", "UF9", "UF10", "CF8", "CF9", "CF10", "CF2", "CF4", "CF5", "CF6", "CF7"]
 GEN_FILE = os.path.join(C.COQ, "Gen", "Problems.v")
 TOL = 1e-9
 _TR = {}
